@@ -270,6 +270,7 @@ pub fn variants(prop: &str, base: &Plan, dry: &RunOut, r: &mut crate::env::Split
                         Op::Fmt { sink, .. } | Op::FmtIter { sink, .. } => {
                             sink.fail_at = Some(w);
                             sink.cap = 8192;
+                            sink.elem_fail_at = None;
                         }
                         _ => {}
                     }
